@@ -132,6 +132,18 @@ def _check_case(case):
             G0 = pan.dense(p.calc_kG0(c=c0, nx=nx, ny=ny, silent=True))
             if np.abs(G0).max() != 0:
                 fails.append(fail('numerically integrated kG of the undeformed state is not zero (%s)' % model, sig=None, case=case))
+        # unequal series orders with the number of integration points given for ONE direction only (the other one is
+        # the panel's own setting, sufficient for its order): still the analytic matrix
+        if (case['m'], case['n']) == (3, 4):
+            for model, (m_, n_), kw in (('plate', (3, 9), dict(nx=5)), ('cpanel', (3, 9), dict(nx=5)),
+                                        ('plate', (9, 3), dict(ny=5)), ('cpanel', (9, 3), dict(ny=5))):
+                p = pan.make_panel(dict(base, model=model, r=1.5, m=m_, n=n_))
+                p.nx, p.ny = m_ + 4, n_ + 4
+                K = pan.dense(p.calc_k0(silent=True))
+                Kn = pan.dense(p.calc_k0(silent=True, c=np.zeros(3 * m_ * n_), **kw))
+                if np.abs(Kn - K).max() > 1e-10 * np.abs(K).max():
+                    fails.append(fail('numerically integrated k0 at the undeformed state differs from the analytic one (%s, orders %s, only %s given)'
+                                      % (model, (m_, n_), sorted(kw)[0]), sig=None, case=case, rel=float(np.abs(Kn - K).max() / np.abs(K).max())))
     elif kind == 'exchange':
         tri = TRIPLES[case['triple']]
         stack, mat, off = pan.laminate_of(base)
